@@ -178,8 +178,6 @@ class InternalCompiler(Compiler):
         return dest
 
     def compile_or(self, qc, expr, dest=None) -> int:
-        # TODO: this won't work on len(expr.args) > 2
-
         # 1. Compile every argument
         erets = list(map(lambda e: self.compile_expr(qc, e), expr.args))
 
@@ -192,13 +190,23 @@ class InternalCompiler(Compiler):
         if dest in erets:
             erets.remove(dest)
 
-        # . Perform the CX between all args and dest
         erets = list(set(erets))
-        for i in erets:
+        # . Reduce n-ary Or to a binary Or, accumulating on temporary ancillas
+        operands = list(erets)
+        while len(operands) > 2:
+            acc = qc.get_free_ancilla()
+            qc.cx(operands[0], acc)
+            qc.cx(operands[1], acc)
+            qc.mcx(operands[0:2], acc)
+            qc.mark_ancilla(acc)
+            operands = [acc] + operands[2:]
+
+        # . Perform the CX between all args and dest
+        for i in operands:
             qc.cx(i, dest)
 
         # 4. Perform the MCX between all args
-        qc.mcx(erets, dest)
+        qc.mcx(operands, dest)
 
         # 5. Mark ancilla every argument and return
         [qc.mark_ancilla(eret) for eret in erets]
